@@ -43,6 +43,7 @@ type Exec struct {
 	globalByRef map[string]*ssa.Global
 	epochFrames map[int]*epochFrame
 	noFrameHeaps map[string]bool
+	stateSeq   int
 }
 
 type modLoc struct {
@@ -118,7 +119,7 @@ func (e *Exec) oblige(fr *frame, st *State, kind, desc string, pos token.Pos, go
 	nh := len(e.ctx.hyps)
 	for i, g := range parts {
 		o := &Obligation{Name: name, Kind: base, Func: e.key, Pos: e.w.pos(pos), Desc: desc,
-			nhyps: nh, pc: st.pc, goal: g, ctx: e.ctx}
+			nhyps: nh, pc: st.pc, goal: g, ctx: e.ctx, state: st.id}
 		if len(parts) > 1 {
 			o.Name = fmt.Sprintf("%s.%d", name, i+1)
 			o.Desc = fmt.Sprintf("%s [conjunct %d of %d]", desc, i+1, len(parts))
@@ -313,8 +314,10 @@ func (e *Exec) runBody(fr *frame, st *State, args []Val, bindings []Val) []retSt
 			if cur.dead {
 				break
 			}
+			e.ctx.tag = cur.id
 			e.step(fr, cur, instr)
 		}
+		e.ctx.tag = cur.id
 		if cur.dead {
 			continue
 		}
@@ -327,9 +330,11 @@ func (e *Exec) runBody(fr *frame, st *State, args []Val, bindings []Val) []retSt
 			if c.Bad != "" || ct == "" {
 				ct = e.ctx.fresh("cond", sBool)
 			}
-			s1 := cur.clone()
+			s1 := e.fork(cur)
+			e.ctx.tag = s1.id
 			s1.pc = e.namePC(and(cur.pc, ct))
-			s2 := cur
+			s2 := e.fork(cur)
+			e.ctx.tag = s2.id
 			s2.pc = e.namePC(and(cur.pc, not(ct)))
 			e.flow(fr, in, headers, b, b.Succs[0], s1)
 			e.flow(fr, in, headers, b, b.Succs[1], s2)
@@ -358,6 +363,7 @@ func (e *Exec) flow(fr *frame, in map[*ssa.BasicBlock][]edgeState, headers map[*
 	if st.dead || st.pc == "false" {
 		return
 	}
+	e.ctx.tag = st.id
 	li := fr.loops
 	if li.backEdge[[2]*ssa.BasicBlock{from, to}] {
 		ord := li.ordinal[to]
